@@ -687,6 +687,8 @@ type c04pairJSON struct {
 	Chained bool `json:"chained,omitempty"`
 	// Preset: A was answered by a plugin in front of the cache and renamed to B's name behind it, then B was asked twice
 	Preset bool `json:"preset,omitempty"`
+	// Prev: the entries came from a hand-assembled dump in the previous build's format
+	Prev bool `json:"prev,omitempty"`
 	// Answer: kind of answer the upstream gave ("" NOERROR with data, "nxdomain", "nodata")
 	Answer string `json:"answer,omitempty"`
 }
@@ -723,7 +725,7 @@ func (s *c04state) check(scn string, q c04q, o c04obs) string {
 		return "miss-forwarded"
 	}
 	kind := c04kind(src, q)
-	if scn == "chained-caches" || scn == "preset-response" {
+	if scn == "chained-caches" || scn == "preset-response" || scn == "previous-build-dump" {
 		kind = scn + "/" + kind
 	}
 	if strings.HasPrefix(scn, "type-sweep-") {
@@ -865,6 +867,17 @@ func TestVerifC04(t *testing.T) {
 		}
 	}
 	res.Bounds["B7.negative_answers"] = "all 65536 types x {ascending, descending} x 2 passes for one base question with an upstream answering NXDOMAIN / NODATA (marker in the authority section)"
+	// B8: a dump written by the previous build (documented v2 layout, assembled by hand)
+	for _, n := range b5names {
+		for _, ty := range []uint16{1, 28, 255} {
+			if !mine() || expired("all previous-build dumps were done") {
+				continue
+			}
+			execs += s.prevBuild(n, ty, func(k string) { bOut("previous-build-dump", k) })
+			res.States += 16
+		}
+	}
+	res.Bounds["B8.previous_build_dump"] = fmt.Sprintf("hand-assembled v2 dump with the 8 AD/CD/DO variants of one question (%d names x types {1,28,255}) loaded through /load_dump, then all 16 RD/AD/CD/DO variants asked", len(b5names))
 	// ------------------------------------------------------------ K: key injectivity
 	keyer := c04newKeyer()
 	seed := maphash.MakeSeed() // process-local table hash; the shard function below is deterministic
@@ -1241,6 +1254,11 @@ func TestVerifC04(t *testing.T) {
 				continue
 			}
 		}
+		if strings.HasPrefix(k, "previous-build-dump/") {
+			res.ViolateInput("exec/foreign-answer:"+k, fmt.Sprintf("a dump in the v2 format as the previous build wrote it (hand-assembled: flags octet AD=1 CD=2 DO=4, type, name, class) was accepted by /load_dump; "+
+				"then a query was answered with the entry of a different question: stored for %v, served to %v", p[0], p[1]), c04pairJSON{A: p[0].json(), B: p[1].json(), Prev: true})
+			continue
+		}
 		if strings.HasPrefix(k, "preset-response/") {
 			res.ViolateInput("exec/foreign-answer:"+k, fmt.Sprintf("a plugin in front of the cache answered %v, a redirect-like plugin renamed the question for the rest of the chain (cache -> optional context swap -> upstream), then the other question was asked: "+
 				"it was answered with a response made for a different question: made for %v, served to %v", p[0], p[0], p[1]), c04pairJSON{A: p[0].json(), B: p[1].json(), Preset: true})
@@ -1312,6 +1330,16 @@ func c04replay(t *testing.T, in json.RawMessage) {
 	if err1 != nil || err2 != nil {
 		fmt.Println("INFRA: bad replay input:", err1, err2)
 		t.Fatal("bad input")
+	}
+	if p.Prev {
+		st := &c04state{res: vr.New("C04", vr.Env{}), foreign: map[string][2]c04q{}}
+		st.prevBuild(b.N, b.T, func(k string) { fmt.Println("   ", k) })
+		if len(st.foreign) > 0 {
+			fmt.Println("REPLAY-VIOLATION property=C04 an entry of a dump written in the previous build's format was served to a query with other AD/CD/DO flags")
+		} else {
+			fmt.Println("REPLAY-OK")
+		}
+		return
 	}
 	if p.Preset {
 		st := &c04state{res: vr.New("C04", vr.Env{}), foreign: map[string][2]c04q{}}
